@@ -196,7 +196,7 @@ func (c *cache[K, V]) DeleteExpired() error {
 	}
 	c.mu.Unlock()
 
-	return errors.Unwrap(err)
+	return err
 }
 
 // Flush removes all the existing items in the cache.
@@ -239,7 +239,7 @@ func (c *Cache[K, V]) MapToCache(m map[K]V, d time.Duration) error {
 		err = errors.Join(err, e)
 	}
 
-	return errors.Unwrap(err)
+	return err
 }
 
 // IsExpired checks if a cache item is expired.
